@@ -1,6 +1,7 @@
 // C01: Read(Write(v)) == v for every writer/reader pairing, consuming exactly the bytes written,
 // followed by a second value on the same stream.  Instantiation list: gen/C01_*.inc
 //@tu unwind=10 memunwind=60 loop:ReadEntries=3 loop:StreamWriter.*Skip=3 loop:LogicalBuffer=6
+//@h rt_T3_ : timeout_thorough=3000
 //@h LB5 : unwind=40 memunwind=300
 //@h LB6 : unwind=140 memunwind=170
 #include "ser.h"
